@@ -1034,4 +1034,360 @@ theorem unmSh_eq_spec (s : Schema)
       · obtain ⟨ht, rfl⟩ := coerceTy_nil hv h
         simp [ht, embedSh_null]
 
+/-! ## input objects: default injection, field lookup, the fuel induction -/
+
+theorem lookup_append {α : Type} (m : List (String × α)) (k' : String) (v : α) (k : String) :
+    lookup (m ++ [(k', v)]) k = (match lookup m k with | some x => some x | none => if k' = k then some v else none) := by
+  induction m with
+  | nil => simp [lookup]
+  | cons a r ih =>
+    obtain ⟨a1, a2⟩ := a
+    simp only [List.cons_append, lookup]
+    split
+    · rfl
+    · exact ih
+
+def injStep (m : List (String × Raw)) (f : FieldDef) : List (String × Raw) :=
+  match f.dflt with
+  | some d => if (lookup m f.name).isSome then m else m ++ [(f.name, dumpDefault d)]
+  | none => m
+
+theorem injectDefaults_eq (fields : List FieldDef) (m : List (String × Raw)) :
+    injectDefaults fields m = fields.foldl injStep m := by
+  unfold injectDefaults; rfl
+
+theorem lookup_injStep_ne (m : List (String × Raw)) (f : FieldDef) (k : String) (h : f.name ≠ k) :
+    lookup (injStep m f) k = lookup m k := by
+  unfold injStep
+  split
+  · split
+    · rfl
+    · rw [lookup_append]; cases lookup m k <;> simp [h]
+  · rfl
+
+theorem lookup_injStep_self (m : List (String × Raw)) (f : FieldDef) :
+    lookup (injStep m f) f.name =
+      (match lookup m f.name with | some x => some x | none => f.dflt.map dumpDefault) := by
+  unfold injStep
+  cases hd : f.dflt with
+  | none => simp; cases lookup m f.name <;> rfl
+  | some d =>
+    simp only
+    cases hl : lookup m f.name with
+    | some x => simp [hl]
+    | none => simp [lookup_append, hl]
+
+theorem lookup_foldl_not_mem (fields : List FieldDef) (m : List (String × Raw)) (k : String)
+    (h : ∀ fd ∈ fields, fd.name ≠ k) : lookup (fields.foldl injStep m) k = lookup m k := by
+  induction fields generalizing m with
+  | nil => rfl
+  | cons a r ih =>
+    simp only [List.foldl]
+    rw [ih _ (fun fd hfd => h fd (by simp [hfd])), lookup_injStep_ne _ _ _ (h a (by simp))]
+
+/-- `asMap` after default injection, looked up at a field of the type: the provided value, else the dumped default -/
+theorem lookup_injectDefaults (fields : List FieldDef) (hnd : (fields.map (·.name)).Nodup) (m : List (String × Raw))
+    (fd : FieldDef) (hfd : fd ∈ fields) :
+    lookup (injectDefaults fields m) fd.name =
+      (match lookup m fd.name with | some x => some x | none => fd.dflt.map dumpDefault) := by
+  rw [injectDefaults_eq]
+  induction fields generalizing m with
+  | nil => cases hfd
+  | cons a r ih =>
+    simp only [List.map, List.nodup_cons] at hnd
+    simp only [List.foldl]
+    cases hfd with
+    | head =>
+      rw [lookup_foldl_not_mem r _ _ (fun fd' hfd' hne => hnd.1 (by rw [← hne]; exact List.mem_map_of_mem hfd'))]
+      exact lookup_injStep_self m fd
+    | tail _ hmem =>
+      have hne : a.name ≠ fd.name := fun he => hnd.1 (by rw [he]; exact List.mem_map_of_mem hmem)
+      rw [ih hnd.2 _ hmem, lookup_injStep_ne _ _ _ hne]
+
+/-- two lists related position by position -/
+inductive All2 {α β : Type} (R : α → β → Prop) : List α → List β → Prop
+  | nil : All2 R [] []
+  | cons {a : α} {b : β} {as : List α} {bs : List β} : R a b → All2 R as bs → All2 R (a :: as) (b :: bs)
+
+theorem mapE_ok_forall2 {ε α β : Type} {f : α → Except ε β} {xs : List α} {ys : List β}
+    (h : mapE f xs = .ok ys) : All2 (fun x y => f x = .ok y) xs ys := by
+  induction xs generalizing ys with
+  | nil => simp [mapE] at h; subst h; exact .nil
+  | cons a r ih =>
+    simp only [mapE] at h
+    split at h
+    · cases h
+    · rename_i b hb
+      split at h
+      · cases h
+      · rename_i bs hbs
+        cases h
+        exact .cons hb (ih hbs)
+
+theorem mapE_ok_of_forall {ε α β : Type} {f : α → Except ε β} {g : α → β} {xs : List α}
+    (h : ∀ x ∈ xs, f x = .ok (g x)) : mapE f xs = .ok (xs.map g) := by
+  induction xs with
+  | nil => rfl
+  | cons a r ih =>
+    simp only [mapE, List.map]
+    rw [h a (by simp), ih (fun x hx => h x (by simp [hx]))]
+
+theorem lookup_app {α : Type} (a b : List (String × α)) (k : String) :
+    lookup (a ++ b) k = (match lookup a k with | some x => some x | none => lookup b k) := by
+  induction a with
+  | nil => simp [lookup]
+  | cons x r ih =>
+    obtain ⟨x1, x2⟩ := x
+    simp only [List.cons_append, lookup]
+    split
+    · rfl
+    · exact ih
+
+/-- the entries the Spec produces for the fields of an input type: omitted, or keyed by the field's name -/
+def KeyedBy (fd : FieldDef) (y : Option (String × CV)) : Prop := y = none ∨ ∃ c, y = some (fd.name, c)
+
+theorem lookup_filterMap_none {F : List FieldDef} {kvs : List (Option (String × CV))}
+    (h : All2 KeyedBy F kvs) (k : String) (hk : ∀ fd ∈ F, fd.name ≠ k) :
+    lookup (kvs.filterMap id) k = none := by
+  induction h with
+  | nil => rfl
+  | @cons fd y F' kvs' hy _ ih =>
+    rcases hy with rfl | ⟨c, rfl⟩
+    · simpa using ih (fun fd' hfd' => hk fd' (by simp [hfd']))
+    · simp only [List.filterMap_cons, id, lookup]
+      rw [if_neg (hk fd (by simp))]
+      exact ih (fun fd' hfd' => hk fd' (by simp [hfd']))
+
+theorem lookup_filterMap_keyed {F : List FieldDef} {kvs : List (Option (String × CV))}
+    (h : All2 KeyedBy F kvs) (hnd : (F.map (·.name)).Nodup) :
+    ∀ (pre : List (String × CV)), (∀ fd ∈ F, lookup pre fd.name = none) →
+      All2 (fun fd y => lookup (pre ++ kvs.filterMap id) fd.name = y.map (·.2)) F kvs := by
+  induction h with
+  | nil => intro pre _; exact .nil
+  | @cons fd y F' kvs' hy hrest ih =>
+    intro pre hpre
+    simp only [List.map, List.nodup_cons] at hnd
+    have hne : ∀ fd' ∈ F', fd'.name ≠ fd.name :=
+      fun fd' hfd' he => hnd.1 (by rw [← he]; exact List.mem_map_of_mem hfd')
+    refine .cons ?_ ?_
+    · rw [lookup_app, hpre fd (by simp)]
+      rcases hy with rfl | ⟨c, rfl⟩
+      · simpa using lookup_filterMap_none hrest fd.name hne
+      · simp [lookup]
+    · rcases hy with rfl | ⟨c, rfl⟩
+      · simpa using ih hnd.2 pre (fun fd' hfd' => hpre fd' (by simp [hfd']))
+      · have := ih hnd.2 (pre ++ [(fd.name, c)]) (fun fd' hfd' => by
+          rw [lookup_app, hpre fd' (by simp [hfd'])]
+          simp [lookup, (hne fd' hfd').symm])
+        simpa [List.append_assoc] using this
+
+theorem All2.and {α β : Type} {R S : α → β → Prop} {xs : List α} {ys : List β}
+    (h1 : All2 R xs ys) (h2 : All2 S xs ys) : All2 (fun x y => R x y ∧ S x y) xs ys := by
+  induction h1 with
+  | nil => exact .nil
+  | cons hr _ ih => cases h2 with | cons hs h2' => exact .cons ⟨hr, hs⟩ (ih h2')
+
+theorem All2.imp {α β : Type} {R S : α → β → Prop} {xs : List α} {ys : List β}
+    (h : All2 R xs ys) (hi : ∀ x y, R x y → S x y) : All2 S xs ys := by
+  induction h with
+  | nil => exact .nil
+  | cons hr _ ih => exact .cons (hi _ _ hr) ih
+
+theorem All2.mem {α β : Type} {R : α → β → Prop} {xs : List α} {ys : List β}
+    (h : All2 R xs ys) {x : α} (hx : x ∈ xs) : ∃ y, R x y := by
+  induction h with
+  | nil => cases hx
+  | cons hr _ ih =>
+    cases hx with
+    | head => exact ⟨_, hr⟩
+    | tail _ hx' => exact ih hx'
+
+theorem ivOf_ne_absent (v : Raw) : ivOf v ≠ .absentVar := by
+  cases v <;> simp [ivOf]
+  case num t => cases jsonIntToken t <;> simp
+
+theorem ivOf_obj {v : Raw} {fs : List (String × IV)} (h : ivOf v = .obj fs) :
+    ∃ m, v = .obj m ∧ fs = ivOfFields m := by
+  cases v <;> simp [ivOf] at h
+  case num t => cases hj : jsonIntToken t <;> simp [hj] at h
+  case obj m => exact ⟨m, rfl, h.symm⟩
+
+/-- what is asked of a schema: distinct field names, field types whose Go shapes fit them, literal defaults
+    (no variables, integers within int64, nesting below `litDepth`) -/
+structure SchemaWF (s : Schema) (c : Cfg) : Prop where
+  nodup : ∀ n isMap fields, s.get n = some (.input isMap fields) → (fields.map (·.name)).Nodup
+  fitsField : ∀ n isMap fields fd, s.get n = some (.input isMap fields) → fd ∈ fields →
+    fits s (shapeField s c fd.ty) fd.ty = true ∧ fits s (shapeRef s c fd.ty) fd.ty = true
+  dflt : ∀ n isMap fields fd d, s.get n = some (.input isMap fields) → fd ∈ fields → fd.dflt = some d →
+    ivOf (dumpDefault d) = ivOfLit [] litDepth d ∧ canon (dumpDefault d) = true
+
+/-- the agreement of Impl and Spec at one fuel level (the induction hypothesis of `coerce_eq_spec`) -/
+def Agree (s : Schema) (c : Cfg) (f : Nat) : Prop :=
+  ∀ (t : Ty) (sh : Sh) (v : Raw) (path : Path) (cv : CV),
+    fits s sh t = true → canon v = true → (v.isNil = true → t.nn = true ∨ sh.nilable = true) →
+    coerce {} s f t (ivOf v) path = .ok cv →
+    unm s c f t sh v path = .ok (embed s c f t sh cv)
+
+/-- one field: what the Spec says about it determines what the generated code does with it -/
+theorem field_agree {s : Schema} {c : Cfg} {f : Nat} (ag : Agree s c f)
+    {fields : List FieldDef} {m : List (String × Raw)} {path : Path} {fd : FieldDef} {sh : Sh}
+    (hcm : canonFields m = true)
+    (hdf : ∀ d, fd.dflt = some d → ivOf (dumpDefault d) = ivOfLit [] litDepth d ∧ canon (dumpDefault d) = true)
+    (hfit : fits s sh fd.ty = true) (hnil : fd.ty.nn = false → sh.nilable = true)
+    (hlook : lookup (injectDefaults fields m) fd.name =
+      (match lookup m fd.name with | some x => some x | none => fd.dflt.map dumpDefault))
+    {y : Option (String × CV)}
+    (hy : objField {} (coerce {} s f) (ivOfFields m) path fd = .ok y) :
+    (lookup (injectDefaults fields m) fd.name = none ∧ y = none) ∨
+    (∃ fv cv', lookup (injectDefaults fields m) fd.name = some fv ∧ y = some (fd.name, cv') ∧
+      unm s c f fd.ty sh fv (path ++ [fd.name]) = .ok (embed s c f fd.ty sh cv')) := by
+  unfold objField at hy
+  simp only [lookup_ivOfFields] at hy
+  have hnilcond : ∀ fv : Raw, fv.isNil = true → fd.ty.nn = true ∨ sh.nilable = true := by
+    intro fv _
+    cases hnn : fd.ty.nn
+    · exact Or.inr (hnil hnn)
+    · exact Or.inl rfl
+  cases hl : lookup m fd.name with
+  | some x =>
+    have hcx : canon x = true := canonFields_lookup hcm hl
+    simp only [hl, Option.map_some] at hy hlook
+    have hprov : providedOf {} (some (ivOf x)) = some (ivOf x) := by
+      have hna := ivOf_ne_absent x
+      cases hx : ivOf x <;> first | (exact absurd hx hna) | rfl
+    rw [hprov] at hy
+    simp only [useValOf] at hy
+    split at hy
+    · rename_i cv' hcv'
+      cases hy
+      exact Or.inr ⟨x, cv', hlook, rfl, ag _ _ _ _ _ hfit hcx (hnilcond x) hcv'⟩
+    · cases hy
+  | none =>
+    simp only [hl, Option.map_none] at hy hlook
+    have hprov : providedOf {} (none : Option IV) = none := rfl
+    rw [hprov] at hy
+    cases hd : fd.dflt with
+    | none =>
+      simp only [useValOf, hd, Option.map_none] at hy hlook
+      split at hy
+      · cases hy
+      · cases hy; exact Or.inl ⟨hlook, rfl⟩
+    | some d =>
+      obtain ⟨he, hcd⟩ := hdf d hd
+      simp only [useValOf, hd, Option.map_some] at hy hlook
+      rw [← he] at hy
+      split at hy
+      · rename_i cv' hcv'
+        cases hy
+        exact Or.inr ⟨_, cv', hlook, rfl, ag _ _ _ _ _ hfit hcd (hnilcond _) hcv'⟩
+      · cases hy
+
+theorem objField_keyed {dv : Devs} {rec : Ty → IV → Path → Except SErr CV} {fs : List (String × IV)}
+    {path : Path} {fd : FieldDef} {y : Option (String × CV)} (h : objField dv rec fs path fd = .ok y) :
+    KeyedBy fd y := by
+  unfold objField at h
+  dsimp only at h
+  split at h
+  · split at h
+    · cases h
+    · cases h; exact Or.inl rfl
+  · split at h
+    · cases h; exact Or.inr ⟨_, rfl⟩
+    · cases h
+
+/-- what `coerceObj` succeeding means -/
+theorem coerceObj_ok {dv : Devs} {rec : Ty → IV → Path → Except SErr CV} {fields : List FieldDef} {iv : IV}
+    {path : Path} {cv : CV} (h : coerceObj dv rec fields iv path = .ok cv) :
+    ∃ fs kvs, iv = .obj fs ∧ mapE (objField dv rec fs path) fields = .ok kvs ∧ cv = .obj (kvs.filterMap id) := by
+  unfold coerceObj at h
+  split at h
+  · rename_i fs
+    split at h
+    · cases h
+    · split at h
+      · rename_i kvs hk
+        cases h
+        exact ⟨fs, kvs, rfl, hk, rfl⟩
+      · cases h
+  · cases h
+
+theorem coerceObj_nonnull {dv : Devs} {rec : Ty → IV → Path → Except SErr CV} {fields : List FieldDef} {iv : IV}
+    {path : Path} {cv : CV} (h : coerceObj dv rec fields iv path = .ok cv) : cv ≠ .null := by
+  obtain ⟨_, _, _, _, rfl⟩ := coerceObj_ok h
+  simp
+
+/-- **Input objects: `unmarshalInput*` agrees with the Spec**, given agreement on the field values. -/
+theorem obj_eq_spec {s : Schema} {c : Cfg} (wf : SchemaWF s c) {f : Nat} (ag : Agree s c f)
+    {n : String} {isMap : Bool} {fields : List FieldDef} (hs : s.get n = some (.input isMap fields))
+    {v : Raw} (hc : canon v = true) {path : Path} {cv : CV}
+    (h : coerceObj {} (coerce {} s f) fields (ivOf v) path = .ok cv) :
+    (if isMap then unmMap s c (unm s c f) n v path
+     else unmStruct s c (zero s c f) (unm s c f) n v path) =
+      .ok (embedObj s c (zero s c f) (embed s c f) n isMap cv) := by
+  obtain ⟨fs, kvs, hiv, hk, rfl⟩ := coerceObj_ok h
+  obtain ⟨m, rfl, rfl⟩ := ivOf_obj hiv
+  have hcm : canonFields m = true := by simpa [canon] using hc
+  have hnd := wf.nodup n isMap fields hs
+  have A := mapE_ok_forall2 hk
+  have K := lookup_filterMap_keyed (A.imp (fun _ _ hxy => objField_keyed hxy)) hnd [] (fun _ _ => rfl)
+  have AK := A.and K
+  simp only [List.nil_append] at AK
+  -- per field
+  have key : ∀ fd ∈ fields, ∀ sh, fits s sh fd.ty = true → (fd.ty.nn = false → sh.nilable = true) →
+      (lookup (injectDefaults fields m) fd.name = none ∧ lookup (kvs.filterMap id) fd.name = none) ∨
+      (∃ fv cv', lookup (injectDefaults fields m) fd.name = some fv ∧
+        lookup (kvs.filterMap id) fd.name = some cv' ∧
+        unm s c f fd.ty sh fv (path ++ [fd.name]) = .ok (embed s c f fd.ty sh cv')) := by
+    intro fd hfd sh hfit hnil
+    obtain ⟨y, hy, hlk⟩ := AK.mem hfd
+    rcases field_agree ag hcm (fun d hd => wf.dflt n isMap fields fd d hs hfd hd) hfit hnil
+        (lookup_injectDefaults fields hnd m fd hfd) hy with ⟨h1, rfl⟩ | ⟨fv, cv', h1, rfl, h3⟩
+    · exact Or.inl ⟨h1, by simpa using hlk⟩
+    · exact Or.inr ⟨fv, cv', h1, by simpa using hlk, h3⟩
+  cases isMap
+  · -- struct-backed
+    simp only [Bool.false_eq_true, if_false, unmStruct, embedObj, hs]
+    have hm : mapE (structField s c (zero s c f) (unm s c f) (injectDefaults fields m) path) fields =
+        .ok (fields.map fun fd =>
+          match lookup (kvs.filterMap id) fd.name with
+          | none => (fd.goName, if fieldOmittable c fd.ty then GoV.unset else zero s c f (shapeField s c fd.ty))
+          | some v => (fd.goName, if fieldOmittable c fd.ty then GoV.set (embed s c f fd.ty (shapeField s c fd.ty) v)
+                        else embed s c f fd.ty (shapeField s c fd.ty) v)) := by
+      apply mapE_ok_of_forall
+      intro fd hfd
+      rcases key fd hfd (shapeField s c fd.ty) (wf.fitsField n false fields fd hs hfd).1
+          (shapeField_nilable s c fd.ty) with ⟨h1, h2⟩ | ⟨fv, cv', h1, h2, h3⟩
+      · simp [structField, h1, h2]
+      · simp [structField, h1, h2, h3]
+    rw [hm]
+    simp only []
+    try rfl
+  · -- map-backed
+    simp only [if_true, unmMap, embedObj, hs]
+    have hm : mapE (mapField s c (unm s c f) (injectDefaults fields m) path) fields =
+        .ok (fields.map fun fd =>
+          (lookup (kvs.filterMap id) fd.name).map fun v => (fd.name, embed s c f fd.ty (shapeRef s c fd.ty) v)) := by
+      apply mapE_ok_of_forall
+      intro fd hfd
+      rcases key fd hfd (shapeRef s c fd.ty) (wf.fitsField n true fields fd hs hfd).2
+          (shapeRef_nilable s c fd.ty) with ⟨h1, h2⟩ | ⟨fv, cv', h1, h2, h3⟩
+      · simp [mapField, h1, h2]
+      · simp [mapField, h1, h2, h3]
+    rw [hm]
+    simp [List.filterMap_map]
+    try rfl
+
+/-- Impl and Spec agree at every fuel level -/
+theorem agree_all {s : Schema} {c : Cfg} (wf : SchemaWF s c) : ∀ f, Agree s c f := by
+  intro f
+  induction f with
+  | zero => intro t sh v path cv _ _ _ h; simp [coerce] at h
+  | succ f ih =>
+    intro t sh v path cv hf hc hn h
+    rw [unm_succ]
+    exact unmSh_eq_spec s _ (coerceObj {} (coerce {} s f)) (embedObj s c (zero s c f) (embed s c f))
+      (fun _ _ _ _ h' => coerceObj_nonnull h')
+      (fun n isMap fields v path cv hs hc' _ h' => obj_eq_spec wf ih hs hc' h')
+      sh t v path cv hf hc hn h
+
 end GqlgenVerif.Coerce
